@@ -74,6 +74,20 @@ def run(tier):
             hist.append([{"r": "a", "op": "new", "vals": [10, 20, 30, 40]}, {"r": "c", "o": "a", "op": "getmask", "m": m},
                          {"r": "d", "op": "new", "vals": src}, {"o": "c", "op": "iadd_v", "src": "d"}, {"o": "a", "op": "getitem", "i": 0},
                          {"o": "c", "op": "iadd_v", "src": "c"}, {"o": "a", "op": "getitem", "i": 2}])
+    # hand-written: ifelse whose operands are masked references in every combination (self / other masked with a mask that does
+    # not select a prefix, choice of all zeros, all ones, mixed): the result takes element k of each operand AS INDEXED THROUGH
+    # its mask, and a masked self with an operand of another length raises
+    for m in ([0, 0, 1, 1, 1], [1, 0, 1, 0, 1], [0, 1, 1, 1, 0]):
+        for ch in ([0, 0, 0], [1, 1, 1], [0, 1, 0]):
+            hist.append([{"r": "x", "op": "new", "vals": [10, 11, 12, 13, 14]}, {"r": "a", "op": "new", "vals": [20, 21, 22]},
+                         {"r": "mx", "o": "x", "op": "getmask", "m": m},
+                         {"r": "r1", "o": "a", "op": "ifelse_v", "m": ch, "src": "mx"},          # plain self, masked other
+                         {"r": "r2", "o": "mx", "op": "ifelse_v", "m": ch, "src": "a"},          # masked self, plain other
+                         {"r": "y", "op": "new", "vals": [30, 31, 32, 33, 34]}, {"r": "my", "o": "y", "op": "getmask", "m": m[::-1]},
+                         {"r": "r3", "o": "mx", "op": "ifelse_v", "m": ch, "src": "my"},         # both masked
+                         {"r": "r4", "o": "mx", "op": "ifelse_s", "m": ch, "v": 7},
+                         {"r": "r5", "o": "a", "op": "ifelse_v", "m": ch, "src": "x"},           # length mismatch: raises
+                         {"o": "r1", "op": "getitem", "i": 0}, {"o": "r3", "op": "getitem", "i": 2}])
     hp = os.path.join(chk.work, "histories.jsonl")
     with open(hp, "w") as f:
         for h in hist:
